@@ -107,8 +107,12 @@ def generate(spec):
                     ops.append({"t_us": t, "inst": j, "op": "stop_instance"})
                     fate_done = True
                     continue
-                gap = timeout_us(to) + rng.choice([0, 1, 10**6])
+                gap = timeout_us(to) + rng.choice([0, 1, 10**6, 10**6])
                 fate_done = True
+                if gap - timeout_us(to) == 10**6 and rng.random() < 0.7:
+                    # somebody who owns no instance asks for the metrics half a second after the time-out has elapsed: the
+                    # instance is certainly swept then, whoever else is around - what it answers afterwards is compared too
+                    ops.append({"t_us": t + timeout_us(to) + 500000, "inst": -2, "op": "metrics"})
             t += gap
             r = rng.random()
             if r < 0.30:
@@ -176,6 +180,8 @@ def _norm(text, idmap):
 def _do(w, ids, o, tag=None):
     j = o["inst"]
     op = o["op"]
+    if op == "metrics":
+        return w.get("/metrics", auth=False)
     if op == "server_run":
         return w.post("/run", {"scenario_managers": ["smA"], "scenarios": [o["scenario"]], "equations": o["equations"], "settings": o["settings"]})
     if op == "create_batch":
@@ -258,7 +264,7 @@ def _run(case, only=None, log=None, res=None, conc=None):
     with ServerWorld(wcfg, log, res) as w:
         w.boot()
         ids = {}
-        ops = [(n, o) for n, o in enumerate(case["ops"]) if only is None or o["inst"] == only
+        ops = [(n, o) for n, o in enumerate(case["ops"]) if only is None or o["inst"] == only or o["inst"] == -2
                or (o["op"] == "create_batch" and only in o["insts"])]
         pos = 0
         while pos < len(ops):
@@ -363,6 +369,13 @@ def _fate(case):
             continue
         T = timeout_us(case["instances"][j]["timeout"])
         if j in last and j not in fate and o["t_us"] - last[j] >= T:
+            swept = any(x["inst"] == -2 and x["op"] == "metrics" and last[j] + T + 1000 <= x["t_us"] < o["t_us"] for x in case["ops"])
+            later = [x["t_us"] for x in case["ops"][n + 1:] if x["inst"] == j]
+            if swept and not case["config"].get("adapter"):
+                # certainly swept before its next request, by a request every replay contains: gone for good (no adapter to
+                # bring it back), its answers from here on are the same with and without the other instances
+                last[j] = o["t_us"]
+                continue
             fate[j] = n
         if o["op"] == "stop_instance" and j not in fate:
             fate[j] = n + 1
